@@ -27,8 +27,14 @@ def _compute(tier, seed):
     if tier == 'quick':
         recs = [x for x in recs if x['d']['z'] == 'Absent' or int(digest(x), 16) % 8 == seed % 8]
     from . import replay_fixparams
-    na = len(replay_fixparams.adapters())
-    results = pmap(replay_fixparams.replay_case, [(rec, ai, seed) for rec in recs for ai in range(na)])
+    ads = replay_fixparams.adapters()
+    na = len(ads)
+    # the controller builds a fresh set of likelihoods for every posterior: in the quick tier its adapters replay a
+    # third of the transitions (chosen by content, rotating with the seed)
+    slow = {ai for ai, a in enumerate(ads) if getattr(a, 'slow', False)}
+    results = pmap(replay_fixparams.replay_case,
+                   [(rec, ai, seed) for rec in recs for ai in range(na)
+                    if not (tier == 'quick' and ai in slow and int(digest([rec, ai]), 16) % 3 != seed % 3)])
     return dict(runs=runs, n=len(recs), na=na, results=results, samples=recs[5:7] + recs[-1:],
                 classes=[a.name for a in replay_fixparams.adapters()])
 
